@@ -1,6 +1,6 @@
 """C02  hunk placement obeys offset / anchoring / fuzz rules (DESIGN §4 C02)."""
 from .. import cfg, dataflow as df, guards, patterns as pt
-from ..common import named_input, calls_named
+from ..common import is_min_call, is_max_call, named_input, calls_named
 from ..facts import callee_of
 
 LEVEL = "other"
@@ -113,7 +113,7 @@ def r1(ck, rule="C02-R1"):
                   "normal-mode range constructions: %d (%d not attributable to a mode)" % (len(norm), len(by_mode["other"])), am.where()):
         lo, hi, t = norm[0]
         ck.require(lo == ("const", 0, "usize"), rule, "levels start at 0", "the level range starts at %s" % df.show(lo), am.where(t))
-        good = df.is_call(hi, "core::cmp::min") and any(isinstance(a, tuple) and a[0] == "param" and a[2] == "fuzz" for a in hi[2]) and \
+        good = is_min_call(hi) and any(isinstance(a, tuple) and a[0] == "param" and a[2] == "fuzz" for a in hi[2]) and \
             any(df.is_call(a, "max_useable_fuzz") for a in hi[2])
         ck.require(good, rule, "levels end at min(limit, usable context)", "the level range ends at %s" % df.show(hi, 120), am.where(t), ok_detail=df.show(hi, 120))
     # view() gets the drawn level; try_apply_hunk gets that view
@@ -326,7 +326,7 @@ def r3(ck, rule="C02-R3"):
         e = df.operand_expr(new, s["rv"]["ops"][fields.index(fz)])
         if df.is_call(e, "saturating_sub"):
             rem = e[2][1]
-            good = df.is_call(rem, "saturating_sub") and df.is_call(rem[2][0], "core::cmp::max") and isinstance(rem[2][1], tuple) and rem[2][1][0] == "param" and rem[2][1][2] == "fuzz"
+            good = df.is_call(rem, "saturating_sub") and is_max_call(rem[2][0], ck.prog) and isinstance(rem[2][1], tuple) and rem[2][1][0] == "param" and rem[2][1][2] == "fuzz"
             ck.require(good, rule, "%s trims down to max(prefix,suffix) - level" % fz, "remaining context is %s" % df.show(rem, 120), new.where(s))
     for nm, part in (("remove_content", "remove_part"), ("add_content", "add_part")):
         fn = ck.anchor("HunkView::<'a, 'hunk, Line>::%s" % nm)
